@@ -84,6 +84,11 @@ def valJ : Val → Json
   | .num q => ratJ q
   | .nan => .str "nan"
 
+def getObjPairs (j : Json) : R (List (String × Json)) :=
+  match j with
+  | .obj o => pure (o.toList)
+  | _ => throw "expected object"
+
 def errJ (e : Ladim.Refusal) : Json := Json.mkObj [("error", .str e.toString)]
 
 end Drv
